@@ -184,6 +184,7 @@ class Ctx:
                         hyps=list(self.pc), goal=goal, scenario=self.scenario, path=tuple(self.trace), line=line,
                         note=note)
         ob.inputs = self.inputs
+        ob.path_labels = [f'{l}={c}' for l, c in zip(self.labels, self.trace)]
         self.obligations.append(ob)
         if assume_after:
             try:
